@@ -1444,7 +1444,9 @@ impl HashColumn {
 						log::debug!( target: "parity-db", "Index {} is too old. Current is {}. Skipped", record.table, tables.index.id);
 						return IndexTable::skip_plan(log)
 					}
-					if crate::index::Entry::address_bits(record.table.index_bits()) >= 64 {
+					if record.table.index_bits() >= 64 ||
+						crate::index::Entry::address_bits(record.table.index_bits()) >= 64
+					{
 						// No index of that size can exist: the (not yet checksummed) record is
 						// damaged. Growing the index that far would overflow.
 						return Err(Error::Corruption("Invalid log index id".to_string()))
